@@ -251,6 +251,12 @@ def main():
                    "failure": first["failure"], "case": first["case"],
                    "impl_output": first["impl"],
                    "how_to_replay": f"./check {prop} --replay <this file>",
+                   "python_snippet": (
+                       "DECIMALFP_FORCE_PYTHON_IMPL=1 PYTHONPATH=/repo/src:/verif/harness "
+                       "/venv/bin/python -c \"import json, pyside; "
+                       "c = json.load(open('<this file>'))['case']; "
+                       "[print(o, '->', r) for o, r in zip(c['ops'], pyside.run_case(c))]\"  "
+                       "# executes the protocol operations on the real code"),
                    "also_broken": broken[:5],
                    "n_failing_cases": len(new_failures)}
         rep.violation(payload, "input", found_input=True)
